@@ -13,12 +13,15 @@ for d in harmless/*/; do
   mkdir -p $D/embedded-cli $D/embedded-cli-macros
   cp -r /repo/embedded-cli/src $D/embedded-cli/src; cp -r /repo/embedded-cli-macros/src $D/embedded-cli-macros/src
   if ! (cd $D && patch -s -p1 < /verif/$d/patch.diff); then echo "| $n | - | patch does not apply | |" >> $OUT.tmp; rm -rf $D; continue; fi
-  for q in C01 C02 C03 C04 C05 C06 C07 C08 C10 C11 C12 C13 C14 C15 C16 C17; do
+  # only the checks whose verified modules / bounded stand-ins can see the files the patch touches (ALL=1: every check)
+  REL=$(python3 tools/relevant_props.py $d/patch.diff)
+  [ -n "$ALL" ] && REL="C01 C02 C03 C04 C05 C06 C07 C08 C10 C11 C12 C13 C14 C15 C16 C17"
+  for q in $REL; do
     VERIF_REPO_SRC=$D/embedded-cli/src bin/check $q 2>/dev/null > $D/out-$q.txt &
     while [ $(jobs -r | wc -l) -ge 6 ]; do sleep 2; done
   done
   wait
-  for q in C01 C02 C03 C04 C05 C06 C07 C08 C10 C11 C12 C13 C14 C15 C16 C17; do
+  for q in $REL; do
     v=$(grep -E "^(OK|VIOLATION|UNDECIDED)" $D/out-$q.txt | head -1 | cut -c1-9)
     det=$(grep -E "^(failed obligation|supporting obligation|undischarged|  )" $D/out-$q.txt | head -1 | cut -c1-200 | tr '|' '/')
     echo "| $n | $q | $v | $det |" >> $OUT.tmp
